@@ -62,19 +62,28 @@ fn start(cfg: &Cfg, ctx: Arc<Ctx>, port: u16) -> Server {
     let addr = if cfg.bind.contains(':') { format!("[{}]:{}", cfg.bind, port) } else { format!("{}:{}", cfg.bind, port) };
     let ctx2 = ctx.clone();
     let nw = cfg.nw;
+    let bind = cfg.bind.clone();
+    let current = cfg.flavor == "current";
     std::thread::spawn(move || {
-        let rt = tokio::runtime::Builder::new_multi_thread().worker_threads(nw).enable_all().build().expect("runtime");
+        let rt = if current {
+            tokio::runtime::Builder::new_current_thread().enable_all().build().expect("runtime")
+        } else {
+            tokio::runtime::Builder::new_multi_thread().worker_threads(nw).enable_all().build().expect("runtime")
+        };
         let r = std::panic::catch_unwind(std::panic::AssertUnwindSafe(|| rt.block_on(app.run(addr)).is_ok()));
-        ctx2.record("Run_Return", "main", -1, if matches!(r, Ok(true)) { 1 } else { 0 }, "");
-        // the process (and its runtime) stays alive after run has returned: in-flight tasks go on
+        // Run_Return, then the same address is bound again at once
+        after_return(&ctx2, &bind, port, matches!(r, Ok(true)));
+        // the process and its runtime stay alive after run has returned: in-flight tasks go on.  A current_thread
+        // runtime only runs its tasks while somebody blocks on it.
+        if current {
+            rt.block_on(std::future::pending::<()>());
+        }
         std::mem::forget(rt);
     });
-    let mut tok = Some(for_us);
+    let tok = for_us;
     Server {
         signal: Box::new(move || {
-            if let Some(t) = tok.take() {
-                t.cancel();
-            }
+            tok.cancel(); // idempotent: a second cancel is a no-op
         }),
     }
 }
